@@ -104,7 +104,9 @@ def extract(configs, repo=REPO, log=None):
     build_driver()
     th = tree_hash(repo)
     base = os.path.join(CACHE, "facts", th)
-    target_dir = os.path.join(CACHE, "target")
+    # RSAV_TARGET_DIR: tools that analyse many scratch copies in parallel give each worker its own cargo target
+    # directory (cargo serialises builds that share one)
+    target_dir = os.environ.get("RSAV_TARGET_DIR") or os.path.join(CACHE, "target")
     os.makedirs(base, exist_ok=True)
     out = {}
     ran = 0
